@@ -185,7 +185,10 @@ Section Tasks.
     add_task classes ci c excluded acc k = inl acc' ->
     exists ps, set_values (c_params tc) (cf_data c) = inl ps /\
                dget (full_name (c_slug tc) (cf_ns c)) acc'
-               = Some {| n_cls := k; n_cfg := ci; n_ns := cf_ns c; n_params := ps; n_inputs := [] |}.
+               = Some {| n_cls := k; n_cfg := ci; n_ns := cf_ns c;
+                       n_cfgname := match config_name c with inl n => n | inr _ => [] end;
+                       n_ctxname := match cf_ctx c with Some x => Some (cx_name x) | None => None end;
+                       n_params := ps; n_inputs := [] |}.
   Proof.
     intros Hc Ha He. unfold add_task. rewrite Hc, Ha, He. simpl.
     destruct (set_values (c_params tc) (cf_data c)) as [ps|e]; [|discriminate].
